@@ -158,7 +158,7 @@ impl C12 {
         for (di, d) in docs.iter().enumerate() {
             // deterministic sample of objects: order by a hash of (label, id)
             let mut objs: Vec<(u64, ObjKind)> = d.inv.objects.iter().cloned().filter(|(_, k)| *k != ObjKind::Unreadable).collect();
-            objs.sort_by_key(|(id, k)| (if *k == ObjKind::Other { 1 } else { 0 }, fnv64(format!("{}/{}", d.label, id).as_bytes())));
+            objs.sort_by_key(|(id, k)| (if *k == ObjKind::Other || *k == ObjKind::Scalar { 1 } else { 0 }, fnv64(format!("{}/{}", d.label, id).as_bytes())));
             objs.truncate(per_doc_objs);
             for (id, kind) in objs {
                 let mut kinds = ops::right_ops(id, kind);
